@@ -119,6 +119,14 @@ def deferred_write_error(report, db, S, M):
                     if struct(t) in direct or (
                             t[0] == 'phi' and t[1] in names):
                         consulted = pol
+            for nt in q.notes:
+                # the reading loop was left by `break` in an iteration that
+                # had just cleared the kept exception (whether it may clear
+                # it is the other clause)
+                if nt[0] == 'left-by-break' and nt[2] is not None and any(
+                        nt[2].env.get(nm) == ('const', None)
+                        for nm in names):
+                    consulted = True
             if consulted is not True:
                 dropped = (q, hs[0][1])
             for ev, name in kept.values():
